@@ -62,7 +62,7 @@ template<class C> static void sinkAll(const C& c)
   for (const auto& s : c) sink(s);
 }
 
-enum Kind { K_NUMBER, K_WORDS, K_TOKENS, K_PROC, K_OPTIONS, K_VARS, K_VECTOR, K_GLOB, K_PATH, K_TABLE, K_DIST, K_INTERVAL, K_FORMULA, K_SEQ };
+enum Kind { K_NUMBER, K_WORDS, K_TOKENS, K_PROC, K_OPTIONS, K_VARS, K_VECTOR, K_EDIT, K_GLOB, K_PATH, K_TABLE, K_DIST, K_INTERVAL, K_FORMULA, K_SEQ };
 
 struct Entry
 {
@@ -310,6 +310,69 @@ static std::vector<Entry> entries()
                  catch (bpp::Exception&)
                  {}
                }});
+  // a program of editing calls (one letter each) on a table with two columns; a refused call is caught, as a caller
+  // would, and the table is used afterwards through its names (a refusal must leave a consistent object)
+  e.push_back({"dt.edit", "aAnNcKrRhdDxsg", 1, K_EDIT, [](const std::string& input, int) {
+                 const std::string prog = input.substr(0, 64); // the name-keyed sweep below is cubic in the table size
+                 DataTable t(2);
+                 size_t serial = 0;
+                 auto cells = [&](size_t n) {
+                   std::vector<std::string> v;
+                   for (size_t i = 0; i < n; ++i) v.push_back("v" + std::to_string(++serial));
+                   return v;
+                 };
+                 auto names = [&](size_t n, const char* stem) {
+                   std::vector<std::string> v;
+                   for (size_t i = 0; i < n; ++i) v.push_back(stem + std::to_string(++serial));
+                   return v;
+                 };
+                 auto use = [&]() {
+                   // every name-keyed and index-keyed query, then write
+                   if (t.hasRowNames())
+                     for (const auto& n : t.getRowNames()) sinkAll(t.getRow(n));
+                   if (t.hasColumnNames())
+                     for (const auto& n : t.getColumnNames()) sinkAll(t.getColumn(n));
+                   for (size_t i = 0; i < t.getNumberOfRows(); ++i) sinkAll(t.getRow(i));
+                   for (size_t j = 0; j < t.getNumberOfColumns(); ++j) sinkAll(t.getColumn(j));
+                   if (t.hasRowNames() && t.hasColumnNames())
+                     for (const auto& r : t.getRowNames())
+                       for (const auto& c : t.getColumnNames()) sink(t(r, c));
+                   std::ostringstream os;
+                   DataTable::write(t, os, ",", true);
+                   sink(os.str());
+                 };
+                 for (char op : prog)
+                 {
+                   size_t nr = t.getNumberOfRows(), nc = t.getNumberOfColumns();
+                   try
+                   {
+                     switch (op)
+                     {
+                     case 'a': t.addRow(cells(nc)); break;
+                     case 'A': t.addRow(cells(nc + 1)); break;
+                     case 'n': t.addRow("r" + std::to_string(++serial), cells(nc)); break;
+                     case 'N': t.addRow("r" + std::to_string(++serial), cells(nc + 1)); break;
+                     case 'c': t.addColumn(cells(nr)); break;
+                     case 'K': t.addColumn("c" + std::to_string(++serial), cells(nr + 1)); break;
+                     case 'r': t.setRowNames(names(nr, "r")); break;
+                     case 'R': t.setRowNames(names(nr + 1, "r")); break;
+                     case 'h': t.setColumnNames(names(nc, "c")); break;
+                     case 'd': t.deleteRow(0); break;
+                     case 'D': if (t.hasRowNames()) t.deleteRow(t.getRowNames().back()); else t.deleteRow("none"); break;
+                     case 'x': t.deleteColumn(0); break;
+                     case 's': t.setRow(nr ? nr - 1 : 0, cells(nc + (serial % 2))); break;
+                     case 'g': use(); break;
+                     default: break;
+                     }
+                   }
+                   catch (bpp::Exception&)
+                   {}
+                 }
+                 use();
+                 DataTable copy(t);
+                 t = copy;
+                 use();
+               }});
   e.push_back({"dist.read", "Ga(n=1,)", 2, K_DIST, [](const std::string& s, int v) {
                  BppODiscreteDistributionFormat f(false);
                  auto d = f.readDiscreteDistribution(s, v != 0);
@@ -398,6 +461,7 @@ static std::string seedFor(Kind k, Rng& r)
     if (r.chance(2, 3)) s = "(" + s + ")";
     return s;
   }
+  case K_EDIT: return randomString(r, "aAnNcKrRhdDxsg", 0, 40);
   case K_GLOB: return randomString(r, "ab*", 0, 10);
   case K_PATH: return seedPath(r);
   case K_TABLE: return seedTableText(r, ",\t "[r.below(3)]);
